@@ -261,7 +261,88 @@ def run(shard, rec, tier, seed):
                     rec.case(None, n=shard["span"])
                     rec.count("generated-enums")
                     rec.seen("underlying-types", decl.type)
+                # message level: "values from newer protocol versions survive a read-then-write unchanged" - every
+                # message with an enum field is read with an undeclared ordinal in that field and written again
+                survive(rec, t, ti, spec, rng)
         rec.sample({"generated_enums_from_trees": shard["trees"]})
+
+
+def survive(rec, t, ti, spec, rng):
+    from vf.gen.valuegen import ValueGen
+    from vf.mon.lockstep import FuelExhausted, LockstepReader
+    from vf.ref import numbers
+    from vf.ref.interp import Invalid, Unsupported
+    from vf.ref.reader import RefReader
+    from vf.ref.writer import RefWriter
+
+    it, br = t.interp, t.bridge
+    for name, decl, path in spec.classes():
+        fields = []
+        for pname, ins in br.params((name,)):
+            if ins.kind == "field" and not ins.optional and ins.value is None and it.resolve(ins.type).kind == "enum":
+                fields.append((pname, ins))
+        if not fields:
+            continue
+        vg = ValueGen(it, rng, "nd")
+        for pname, ins in fields[:3]:
+            ty = it.resolve(ins.type)
+            declared = {v[1] for v in ty.decl.values}
+            lim = numbers.LIMIT[ty.wire]
+            n = next((x for x in (lim - 1, 200, 17, 9, 3, 2, 1, 0) if x not in declared and 0 <= x < lim), None)
+            if n is None:
+                continue
+            obj = vg.message(name)
+            obj.fields[pname] = n
+            if pname + "_data" in obj.fields:
+                try:
+                    def flat(b):
+                        for i in b:
+                            if i.kind == "chunked":
+                                yield from flat(i.body)
+                            else:
+                                yield i
+                    sw = next(i for i in flat(it.body_of((name,))[0]) if i.kind == "switch" and i.field == pname)
+                    case = it.select_case(sw, n, (name,))
+                    if case is None or not case.body:
+                        obj.fields[pname + "_data"] = None
+                    else:
+                        obj.fields[pname + "_data"] = vg.obj((name, it.case_class_name(pname, case)), False)
+                except Exception:
+                    continue
+            w = RefWriter()
+            try:
+                it.serialize(obj, w)
+            except (Invalid, Unsupported):
+                continue
+            data = bytes(w.data)
+            C = br.real_class((name,))
+            case = {"tree": ti, "class": name, "field": pname, "ordinal": n, "bytes": data, "xml": t.files}
+            # the message need not be wire-unambiguous: what "unchanged" means is decided by the reference
+            # (read with the reference reader, written with the reference writer)
+            try:
+                mback = it.deserialize((name,), RefReader(data), [20000])
+                w3 = RefWriter()
+                it.serialize(mback, w3)
+                want, wn = bytes(w3.data), mback.fields.get(pname)
+            except Exception:
+                continue
+            if wn != n or want != data:
+                rec.count("messages-not-wire-unambiguous")
+                continue
+            rec.count("messages-with-an-undeclared-ordinal")
+            try:
+                back = C.deserialize(LockstepReader(t.EoReader(data), RefReader(data), fuel=6 * len(data) + 20000))
+                got = getattr(back, pname)
+                w2 = t.EoWriter()
+                C.serialize(w2, back)
+                again = bytes(w2.to_bytearray())
+            except FuelExhausted:
+                continue
+            except Exception as ex:
+                rec.violation("undeclared-ordinal-does-not-survive", "tree %d %s.%s = %d: reading %s and writing it again raised %r" % (ti, name, pname, n, data.hex(), ex), case)
+                continue
+            if int(got) != n or getattr(got, "name", None) != "Unrecognized(%d)" % n or again != data:
+                rec.violation("undeclared-ordinal-does-not-survive", "tree %d %s.%s: read %s, field came back as %r, written again as %s" % (ti, name, pname, data.hex(), got, again.hex()), case)
 
 
 if __name__ == "__main__":
